@@ -4,6 +4,7 @@ CONSTANTS MaxRound = 2
  MaxHyps = 2
  N = 2
  EmitRejected = TRUE
+ ExtraInst = FALSE
  Focus = FALSE
 INVARIANT AllWellTyped
 
